@@ -51,6 +51,8 @@ TABLE: List[Entry] = [
     ("R-HANDOVER", None, None, {"C01", "C02", "C08", "C09"}),
     # ---- multiprocessing parent ----------------------------------------------------------------------------
     ("R-STATS-SLOT", None, None, {"C11", "C17"}),
+    ("R-MARKER", None, "solution-forwarded:lossy-put", {"C11", "C12"}),
+    ("R-MARKER", None, "solution-forwarded:deduplicated", {"C11", "C17"}),
     ("R-MARKER", None, "solution-forwarded", {"C01", "C02", "C11", "C12"}),  # C12: the union of the parts' solutions reaches the caller
     ("R-MARKER", None, "marker-recorded", {"C11", "C12"}),
     ("R-MARKER", None, "spawn", {"C11", "C12"}),  # a part that is never started (or is taken for dead) is missing from the union  # a healthy part reported dead: the union is never delivered
@@ -107,6 +109,7 @@ TABLE: List[Entry] = [
     ("R-SENTINEL", None, None, {"C04", "C16"}),
     ("R-OPTIONAL-ZERO", None, None, {"C01", "C02", "C03", "C13"}),
     # solving a model leaves it as written: reuse (C15), re-optimisation (C03), the rewritten model compared with the original (C13)
+    ("R-PROBLEM-READONLY", None, "writes-model-array", {"C01", "C03", "C13", "C15"}),
     ("R-PROBLEM-READONLY", None, None, {"C03", "C13", "C15"}),
     ("R-MODE-ARITH", None, "narrow-sum-compared", {"C15", "C16", "C19"}),
     ("R-MODE-ARITH", None, None, {"C15"}),
